@@ -58,7 +58,7 @@ def run(module, cfg, scratch, *, workers=16, timeout=900, coverage=True, dump=Fa
         cfg_path = os.path.join(scratch, tag + '.cfg')
         with open(cfg_path, 'w') as fh:
             fh.write(cfg)
-    cmd = ['java', '-XX:+UseParallelGC', '-Xmx' + heap, '-Xss64m']
+    cmd = ['java', '-XX:+UseParallelGC', '-Xmx' + heap, '-Xss64m', '-Djava.io.tmpdir=' + scratch]
     if dfs:
         cmd.append('-Dtlc2.tool.queue.IStateQueue=StateDeque')
     cmd += ['-cp', JAR, 'tlc2.TLC', '-workers', str(workers), '-metadir', meta,
@@ -127,7 +127,7 @@ def check_ok(res, what, need_actions=()):
     if res.error:
         raise TLCError('%s: TLC failed: %s' % (what, res.error))
     for a in need_actions:
-        if res.coverage.get(a, (0, 0))[1] == 0:
+        if sum(v[1] for k, v in res.coverage.items() if k == a or k.startswith(a + '@')) == 0:
             raise TLCError('%s: action %s never taken (vacuous model run); coverage=%r'
                            % (what, a, res.coverage))
     return res
